@@ -40,21 +40,21 @@ type LeafReq struct {
 
 // Wide has many scalar widths to mix alignments.
 type Wide struct {
-	B0 bool    `frugal:"1,default,bool"`
-	I1 int8    `frugal:"2,default,i8"`
-	I2 int16   `frugal:"3,default,i16"`
-	I4 int32   `frugal:"4,default,i32"`
-	I8 int64   `frugal:"5,default,i64"`
-	D  float64 `frugal:"6,default,double"`
-	E  E1      `frugal:"7,default,E1"`
-	S  string  `frugal:"8,default,string"`
-	X  []byte  `frugal:"9,default,binary"`
-	PB *bool   `frugal:"10,optional,bool"`
+	B0 bool     `frugal:"1,default,bool"`
+	I1 int8     `frugal:"2,default,i8"`
+	I2 int16    `frugal:"3,default,i16"`
+	I4 int32    `frugal:"4,default,i32"`
+	I8 int64    `frugal:"5,default,i64"`
+	D  float64  `frugal:"6,default,double"`
+	E  E1       `frugal:"7,default,E1"`
+	S  string   `frugal:"8,default,string"`
+	X  []byte   `frugal:"9,default,binary"`
+	PB *bool    `frugal:"10,optional,bool"`
 	PD *float64 `frugal:"11,optional,double"`
-	P1 *int8   `frugal:"12,optional,i8"`
-	P8 *int64  `frugal:"13,optional,i64"`
-	PS *string `frugal:"14,optional,string"`
-	PE *E2     `frugal:"15,optional,E2"`
+	P1 *int8    `frugal:"12,optional,i8"`
+	P8 *int64   `frugal:"13,optional,i64"`
+	PS *string  `frugal:"14,optional,string"`
+	PE *E2      `frugal:"15,optional,E2"`
 }
 
 // ---- recursive types
@@ -69,6 +69,20 @@ type Node struct {
 	Vals  []Node          `frugal:"7,optional,list<Node>"`
 	MVal  map[string]Node `frugal:"8,optional,map<string:Node>"`
 	Name  string          `frugal:"9,optional,string"`
+}
+
+// NodeWithAnExceptionallyLongGoTypeNameForItsErrorContexts is Node under a long name:
+// error texts that accumulate one "field N of struct S" context per level grow with it.
+type NodeWithAnExceptionallyLongGoTypeNameForItsErrorContexts struct {
+	Val   int32                                                               `frugal:"1,default,i32"`
+	Next  *NodeWithAnExceptionallyLongGoTypeNameForItsErrorContexts           `frugal:"2,optional,NodeWithAnExceptionallyLongGoTypeNameForItsErrorContexts"`
+	Kids  []*NodeWithAnExceptionallyLongGoTypeNameForItsErrorContexts         `frugal:"3,optional,list<NodeWithAnExceptionallyLongGoTypeNameForItsErrorContexts>"`
+	KSet  []*NodeWithAnExceptionallyLongGoTypeNameForItsErrorContexts         `frugal:"4,optional,set<NodeWithAnExceptionallyLongGoTypeNameForItsErrorContexts>"`
+	ByVal map[int32]*NodeWithAnExceptionallyLongGoTypeNameForItsErrorContexts `frugal:"5,optional,map<i32:NodeWithAnExceptionallyLongGoTypeNameForItsErrorContexts>"`
+	ByKey map[*NodeWithAnExceptionallyLongGoTypeNameForItsErrorContexts]int8  `frugal:"6,optional,map<NodeWithAnExceptionallyLongGoTypeNameForItsErrorContexts:i8>"`
+	Vals  []NodeWithAnExceptionallyLongGoTypeNameForItsErrorContexts          `frugal:"7,optional,list<NodeWithAnExceptionallyLongGoTypeNameForItsErrorContexts>"`
+	MVal  map[string]NodeWithAnExceptionallyLongGoTypeNameForItsErrorContexts `frugal:"8,optional,map<string:NodeWithAnExceptionallyLongGoTypeNameForItsErrorContexts>"`
+	Name  string                                                              `frugal:"9,optional,string"`
 }
 
 // NodeU is Node with an unknown-fields holder and fewer known fields: the
@@ -93,10 +107,10 @@ type MutA struct {
 }
 
 type MutB struct {
-	Name string          `frugal:"1,default,string"`
-	A    *MutA           `frugal:"2,optional,MutA"`
+	Name string           `frugal:"1,default,string"`
+	A    *MutA            `frugal:"2,optional,MutA"`
 	M    map[string]*MutA `frugal:"3,optional,map<string:MutA>"`
-	C    *MutC           `frugal:"4,default,MutC"`
+	C    *MutC            `frugal:"4,default,MutC"`
 }
 
 type MutC struct {
@@ -129,7 +143,7 @@ type Tree struct {
 }
 
 type TreeMeta struct {
-	Owner *Tree  `frugal:"1,optional,Tree"`
+	Owner *Tree    `frugal:"1,optional,Tree"`
 	Tags  []string `frugal:"2,default,set<string>"`
 }
 
@@ -138,40 +152,40 @@ type PV struct {
 }
 
 type VV struct {
-	L []*PV  `frugal:"1,optional,list<PV>"`
-	D *Defs  `frugal:"2,optional,Defs"`
-	I int16  `frugal:"3,default,i16"`
+	L []*PV `frugal:"1,optional,list<PV>"`
+	D *Defs `frugal:"2,optional,Defs"`
+	I int16 `frugal:"3,default,i16"`
 }
 
 // ---- defaults
 
 type Defs struct {
-	B    bool    `frugal:"1,optional,bool"`
-	I8   int8    `frugal:"2,optional,i8"`
-	I16  int16   `frugal:"3,optional,i16"`
-	I32  int32   `frugal:"4,optional,i32"`
-	I64  int64   `frugal:"5,optional,i64"`
-	D    float64 `frugal:"6,optional,double"`
-	DZ   float64 `frugal:"7,optional,double"`
-	DN   float64 `frugal:"8,optional,double"`
-	E    E0      `frugal:"9,optional,E0"`
-	S    string  `frugal:"10,optional,string"`
-	SZ   string  `frugal:"11,optional,string"`
-	Bin  []byte  `frugal:"12,optional,binary"`
-	BinZ []byte  `frugal:"13,optional,binary"`
-	RI32 int32   `frugal:"20,default,i32"`
-	RS   string  `frugal:"21,default,string"`
-	RD   float64 `frugal:"22,default,double"`
-	QI64 int64   `frugal:"30,required,i64"`
-	QS   string  `frugal:"31,required,string"`
-	PI32 *int32  `frugal:"40,optional,i32"`
-	PS   *string `frugal:"41,optional,string"`
-	PD   *float64 `frugal:"42,optional,double"`
-	L    []int32 `frugal:"50,optional,list<i32>"`
-	LD   []int32 `frugal:"51,default,list<i32>"`
+	B    bool             `frugal:"1,optional,bool"`
+	I8   int8             `frugal:"2,optional,i8"`
+	I16  int16            `frugal:"3,optional,i16"`
+	I32  int32            `frugal:"4,optional,i32"`
+	I64  int64            `frugal:"5,optional,i64"`
+	D    float64          `frugal:"6,optional,double"`
+	DZ   float64          `frugal:"7,optional,double"`
+	DN   float64          `frugal:"8,optional,double"`
+	E    E0               `frugal:"9,optional,E0"`
+	S    string           `frugal:"10,optional,string"`
+	SZ   string           `frugal:"11,optional,string"`
+	Bin  []byte           `frugal:"12,optional,binary"`
+	BinZ []byte           `frugal:"13,optional,binary"`
+	RI32 int32            `frugal:"20,default,i32"`
+	RS   string           `frugal:"21,default,string"`
+	RD   float64          `frugal:"22,default,double"`
+	QI64 int64            `frugal:"30,required,i64"`
+	QS   string           `frugal:"31,required,string"`
+	PI32 *int32           `frugal:"40,optional,i32"`
+	PS   *string          `frugal:"41,optional,string"`
+	PD   *float64         `frugal:"42,optional,double"`
+	L    []int32          `frugal:"50,optional,list<i32>"`
+	LD   []int32          `frugal:"51,default,list<i32>"`
 	M    map[string]int64 `frugal:"52,optional,map<string:i64>"`
-	Sub  *Leaf   `frugal:"60,optional,Leaf"`
-	NoDf int32   `frugal:"70,optional,i32"` // not touched by InitDefault: default is zero
+	Sub  *Leaf            `frugal:"60,optional,Leaf"`
+	NoDf int32            `frugal:"70,optional,i32"` // not touched by InitDefault: default is zero
 }
 
 func (p *Defs) InitDefault() {
@@ -198,14 +212,14 @@ func (p *Defs) InitDefault() {
 
 // Defs2 has defaults and nests Defs in every position.
 type Defs2 struct {
-	Tag  string          `frugal:"1,optional,string"`
-	P    *Defs           `frugal:"2,optional,Defs"`
-	V    Defs            `frugal:"3,default,Defs"`
-	L    []*Defs         `frugal:"4,default,list<Defs>"`
-	LV   []Defs          `frugal:"5,optional,list<Defs>"`
-	M    map[string]*Defs `frugal:"6,optional,map<string:Defs>"`
-	MV   map[int32]Defs  `frugal:"7,optional,map<i32:Defs>"`
-	Cnt  int32           `frugal:"8,optional,i32"`
+	Tag string           `frugal:"1,optional,string"`
+	P   *Defs            `frugal:"2,optional,Defs"`
+	V   Defs             `frugal:"3,default,Defs"`
+	L   []*Defs          `frugal:"4,default,list<Defs>"`
+	LV  []Defs           `frugal:"5,optional,list<Defs>"`
+	M   map[string]*Defs `frugal:"6,optional,map<string:Defs>"`
+	MV  map[int32]Defs   `frugal:"7,optional,map<i32:Defs>"`
+	Cnt int32            `frugal:"8,optional,i32"`
 }
 
 func (p *Defs2) InitDefault() {
@@ -234,6 +248,34 @@ func (p *Defs3) InitDefault() {
 	s := "ptr-default"
 	p.P = &s
 	p.St = []string{"a"}
+}
+
+// DefsNeg declares negative (and extreme) defaults on every optional by-value scalar
+// kind: an enum is 8 bytes in memory and 4 on the wire, -1 is all ones in both.
+type DefsNeg struct {
+	E   E1      `frugal:"1,optional,E1"`
+	EI  EInt    `frugal:"2,optional,EInt"`
+	EM  E2      `frugal:"3,optional,E2"`
+	I8  int8    `frugal:"4,optional,i8"`
+	I16 int16   `frugal:"5,optional,i16"`
+	I32 int32   `frugal:"6,optional,i32"`
+	I64 int64   `frugal:"7,optional,i64"`
+	D   float64 `frugal:"8,optional,double"`
+	EX  E3      `frugal:"9,optional,E3"`
+	S   string  `frugal:"10,optional,string"`
+}
+
+func (p *DefsNeg) InitDefault() {
+	p.E = -1
+	p.EI = -2
+	p.EM = math.MinInt32
+	p.I8 = -1
+	p.I16 = -1
+	p.I32 = -1
+	p.I64 = -1
+	p.D = -1
+	p.EX = math.MaxInt32
+	p.S = "neg"
 }
 
 // DefsNC declares non-empty defaults on nocopy string/binary fields.
@@ -315,12 +357,12 @@ type Spelling struct {
 }
 
 type ThriftOnly struct {
-	A int32    `thrift:"a,1,required" json:"a"`
-	B *string  `thrift:"b,2,optional" json:"b,omitempty"`
-	C []int64  `thrift:"c,3,default,list<i64>"`
-	D E2       `thrift:"d,4,default,E2"`
-	F float64  `thrift:"f,5"`
-	G *Leaf    `thrift:"g,6,optional,Leaf"`
+	A int32   `thrift:"a,1,required" json:"a"`
+	B *string `thrift:"b,2,optional" json:"b,omitempty"`
+	C []int64 `thrift:"c,3,default,list<i64>"`
+	D E2      `thrift:"d,4,default,E2"`
+	F float64 `thrift:"f,5"`
+	G *Leaf   `thrift:"g,6,optional,Leaf"`
 }
 
 // BothTags: the frugal tag must win over a conflicting thrift tag.
@@ -338,13 +380,13 @@ type EmbTagged struct {
 }
 
 type Ignoring struct {
-	Embedded         // embedded: ignored although its field is tagged
+	Embedded                                 // embedded: ignored although its field is tagged
 	EmbTagged `frugal:"9,default,EmbTagged"` // embedded with its own valid tag: still ignored
-	A        int32   `frugal:"1,default,i32"`
-	Untagged string  // no tag: ignored
-	private  int64   `frugal:"2,default,i64"` // unexported: ignored
-	B        string  `frugal:"3,default,string"`
-	JSONOnly float64 `json:"x"`
+	A         int32                          `frugal:"1,default,i32"`
+	Untagged  string                         // no tag: ignored
+	private   int64                          `frugal:"2,default,i64"` // unexported: ignored
+	B         string                         `frugal:"3,default,string"`
+	JSONOnly  float64                        `json:"x"`
 }
 
 func (p *Ignoring) SetPrivate(v int64) { p.private = v }
@@ -412,7 +454,7 @@ type CycR struct {
 var Valid = []interface{}{
 	&Leaf{}, &LeafReq{}, &Wide{}, &Node{}, &NodeU{}, &NodeOld{}, &MutA{}, &MutB{}, &MutC{},
 	&Defs{}, &Defs2{}, &NoDefs{}, &WithUnknown{}, &UnknownNest{}, &Inner{}, &Spelling{},
-	&ThriftOnly{}, &BothTags{}, &Ignoring{}, &Defs3{}, &ReqNode{}, &Ring1{}, &Tree{}, &PV{}, &DefsNC{}, &DefsNCHolder{},
+	&ThriftOnly{}, &BothTags{}, &Ignoring{}, &Defs3{}, &ReqNode{}, &Ring1{}, &Tree{}, &PV{}, &DefsNC{}, &DefsNCHolder{}, &DefsNeg{},
 }
 
 // Nestable lists static struct types that dynamic types may nest freely (no
@@ -420,5 +462,5 @@ var Valid = []interface{}{
 // guaranteed here; generators check).
 var Nestable = []interface{}{
 	&Leaf{}, &LeafReq{}, &Wide{}, &Node{}, &MutA{}, &Defs{}, &Defs2{}, &NoDefs{},
-	&WithUnknown{}, &UnknownNest{}, &Spelling{}, &ThriftOnly{}, &Ignoring{}, &Defs3{},
+	&WithUnknown{}, &UnknownNest{}, &Spelling{}, &ThriftOnly{}, &Ignoring{}, &Defs3{}, &DefsNeg{},
 }
